@@ -97,6 +97,7 @@ func normalizeHelpers(repo, tags, path string, known func(key string) bool) (map
 		// unknown declarations
 		unknown := map[*types.Func]*ast.FuncDecl{}
 		fileOf := map[*ast.FuncDecl]*ast.File{}
+		takesFunc := map[*types.Func]bool{}
 		for _, f := range p.Syntax {
 			for _, d := range f.Decls {
 				fd, ok := d.(*ast.FuncDecl)
@@ -114,7 +115,7 @@ func normalizeHelpers(repo, tags, path string, known func(key string) bool) (map
 					for i := 0; i < sig.Params().Len(); i++ {
 						t := sig.Params().At(i).Type()
 						if _, isFn := t.Underlying().(*types.Signature); isFn {
-							streamy = true
+							takesFunc[obj] = true // only a problem when called from a WriteTo / ReadFrom (codec closure)
 						}
 						switch types.TypeString(t, nil) {
 						case "io.Reader", "io.Writer", "io.ReaderFrom", "io.WriterTo":
@@ -164,6 +165,19 @@ func normalizeHelpers(repo, tags, path string, known func(key string) bool) (map
 					if call.Pos() >= d.Pos() && call.End() <= d.End() {
 						otherUse[fn] = true
 						return true
+					}
+					if takesFunc[fn] {
+						// inside a serialisation method the function argument is the codec closure: left to the FMT engine
+						inCodec := false
+						for _, dd := range f.Decls {
+							if fd, ok := dd.(*ast.FuncDecl); ok && call.Pos() >= fd.Pos() && call.End() <= fd.End() && (fd.Name.Name == "WriteTo" || fd.Name.Name == "ReadFrom") {
+								inCodec = true
+							}
+						}
+						if inCodec {
+							otherUse[fn] = true
+							return true
+						}
 					}
 					sites = append(sites, site{f, call, fn})
 				}
